@@ -1,9 +1,499 @@
-"""Thorough-tier extras (sensitivity matrix, benign variants) - filled in later."""
+"""Thorough tier: sensitivity matrix (in-memory mutants that must be flagged), benign variants (must stay silent) and the
+seeded patches under /verif/seeded re-applied in memory.
+
+Nothing here changes a verdict: a mutant that is not flagged is printed as SENSITIVITY-GAP, a benign variant that raises an
+alarm as BENIGN-ALARM (a weakness / false alarm of the checker, to be fixed in the checker), an operator whose anchor text
+is gone as 'no longer applies'.  The variants are analysed by exactly the code path of the real check (Program overrides)."""
+from __future__ import annotations
+
+import json
+import os
+import re
+import shutil
+import subprocess
+import sys
+import tempfile
+import time
+from concurrent.futures import ProcessPoolExecutor
+from typing import Dict, List, Optional, Tuple
+
+from .report import VERIF_DIR
+
+H = "tawazi/_dag/helpers.py"
+D = "tawazi/_dag/dag.py"
+G = "tawazi/_dag/digraph.py"
+N = "tawazi/node/node.py"
+U = "tawazi/node/uxn.py"
+C = "tawazi/_dag/constructor.py"
+X = "tawazi/node/extend.py"
+HP = "tawazi/_helpers.py"
+F = "tawazi/node/functions.py"
+
+ALL = [f"C{i:02d}" for i in range(1, 21)]
+
+# (id, file, old, new, properties that must flag it)
+MUTANTS: List[Tuple[str, str, str, str, List[str]]] = [
+    # ---- scheduler guards (C04 / C05 / C08 / C09)
+    ("bound-eq-to-gt", H, "if running_threads() == max_concurrency or", "if running_threads() > max_concurrency or", ["C04"]),
+    ("bound-or-to-and", H, "== max_concurrency or len(runnable_xns_ids) == 0:", "== max_concurrency and len(runnable_xns_ids) == 0:", ["C04"]),
+    ("count-drops-async", H, "return len(conc_running) + len(async_running)", "return len(conc_running)", ["C04", "C05"]),
+    ("main-drop-conc-wait", H, """            conc_done, conc_running, runnable_xns_ids = wait_for_finished_nodes(
+                FIRST_COMPLETED, graph, conc_futures, conc_done, conc_running, runnable_xns_ids
+            )
+
+        # 3.""", "\n        # 3.", ["C04", "C09"]),
+    ("swap-thread-main-arms", H, "if xn.resource == Resource.thread:", "if xn.resource == Resource.main_thread:", ["C04"]),
+    ("await-async-in-place", H, """exec_future_async = asyncio.ensure_future(
+                to_thread_in_executor(xn.execute, executor, results=results, profiles=profiles)
+            )""", "exec_future_async = await to_thread_in_executor(xn.execute, executor, results=results, profiles=profiles)", ["C04"]),
+    ("maxc-lt-1-to-lt-0", D, "if self.max_concurrency < 1:", "if self.max_concurrency < 0:", ["C04"]),
+    ("seqpre-ne0-to-gt1", H, "if xn.is_sequential and running_threads() != 0:", "if xn.is_sequential and running_threads() > 1:", ["C05"]),
+    ("seqpre-deleted", H, "if xn.is_sequential and running_threads() != 0:", "if False and running_threads() != 0:", ["C05"]),
+    ("seqpre-continue-dropped", H, """                FIRST_COMPLETED, graph, conc_futures, conc_done, conc_running, runnable_xns_ids
+            )
+            continue
+""", """                FIRST_COMPLETED, graph, conc_futures, conc_done, conc_running, runnable_xns_ids
+            )
+""", ["C05", "C06"]),
+    ("seqpost-deleted", H, "        if xn.is_sequential:\n            logger.debug(\"Wait for all Futures", "        if False:\n            logger.debug(\"Wait for all Futures", ["C05"]),
+    ("seqpost-only-conc", H, """            async_done, async_running, runnable_xns_ids = await wait_for_finished_nodes_async(
+                ALL_COMPLETED, graph, async_futures, async_done, async_running, runnable_xns_ids
+            )
+""", "", ["C05"]),
+    ("main-wait-all", H, """            async_done, async_running, runnable_xns_ids = await wait_for_finished_nodes_async(
+                FIRST_COMPLETED, graph, async_futures, async_done, async_running, runnable_xns_ids
+            )
+            logger.debug(
+                "Waiting for ExecNodes threaded {}""", """            async_done, async_running, runnable_xns_ids = await wait_for_finished_nodes_async(
+                ALL_COMPLETED, graph, async_futures, async_done, async_running, runnable_xns_ids
+            )
+            logger.debug(
+                "Waiting for ExecNodes threaded {}""", ["C08"]),
+    ("main-guard-extra-disjunct", H, "== max_concurrency or len(runnable_xns_ids) == 0:", "== max_concurrency or len(runnable_xns_ids) <= 1:", ["C08"]),
+    ("unconditional-wait", H, "        # 3. if no runnable node exist, go to step 6", """        conc_done, conc_running, runnable_xns_ids = wait_for_finished_nodes(
+            FIRST_COMPLETED, graph, conc_futures, conc_done, conc_running, runnable_xns_ids
+        )
+        # 3. if no runnable node exist, go to step 6""", ["C08"]),
+    ("helper-ignores-mode", H, "done_, running = wait(running, return_when=return_when)", "done_, running = wait(running, return_when=ALL_COMPLETED)", ["C08"]),
+    ("loop-on-runnable", H, "    while len(graph):", "    while len(runnable_xns_ids):", ["C09"]),
+    ("loop-break", H, """            logger.debug("No runnable Nodes available")
+            continue""", """            logger.debug("No runnable Nodes available")
+            break""", ["C09"]),
+    ("async-helper-no-empty-return", H, """    if len(running) == 0:
+        return done, running, runnable_xns_ids
+    done_, running = await asyncio.wait(""", "    done_, running = await asyncio.wait(", ["C09"]),
+    ("helper-drops-roots", H, """        logger.debug("Remove ExecNode {} from the graph", future_id)
+        runnable_xns_ids |= graph.remove_root_node(future_id)
+
+    return done, running, runnable_xns_ids
 
 
-def thorough_extras(pid, root):
-    return {}
+async def""", """        logger.debug("Remove ExecNode {} from the graph", future_id)
+        graph.remove_root_node(future_id)
+
+    return done, running, runnable_xns_ids
 
 
-def main(jobs, only):
-    return 0
+async def""", ["C09", "C02"]),
+    ("deact-no-removal", H, """            results[xn.id] = None
+            runnable_xns_ids |= graph.remove_root_node(xn.id)
+""", "            results[xn.id] = None\n", ["C09", "C10"]),
+    ("cycle-test-removed", G, """            cycle = find_cycle(graph)
+            raise NetworkXUnfeasible(f"the DAG contains at least a circular dependency: {cycle}")""", "            cycle = find_cycle(graph)", ["C09"]),
+    # ---- readiness / exactly once (C02 / C03)
+    ("roots-degree-le-1", G, "return {node for node, degree in self.in_degree if degree == 0}", "return {node for node, degree in self.in_degree if degree <= 1}", ["C02"]),
+    ("rrn-eq1-to-ge1", G, "if self.in_degree[new_root_node] == 1", "if self.in_degree[new_root_node] >= 1", ["C02"]),
+    ("rrn-predecessors", G, "for new_root_node in self.successors(root_node)", "for new_root_node in self.predecessors(root_node)", ["C02"]),
+    ("unite-all-successors", H, """            xn.execute(results=results, profiles=profiles)
+
+            logger.debug("Remove ExecNode {} from the graph", xn.id)
+            runnable_xns_ids |= graph.remove_root_node(xn.id)""", """            xn.execute(results=results, profiles=profiles)
+
+            logger.debug("Remove ExecNode {} from the graph", xn.id)
+            runnable_xns_ids |= set(graph.successors(xn.id))
+            graph.remove_node(xn.id)""", ["C02"]),
+    ("pool-removal-after-submit", H, "            conc_futures[xn.id] = exec_future_sync\n", "            conc_futures[xn.id] = exec_future_sync\n            runnable_xns_ids |= graph.remove_root_node(xn.id)\n", ["C02"]),
+    ("deps-drop-active", N, """        if self.active is not None:
+            deps.append(self.active)
+
+        return deps""", "        return deps", ["C02", "C10"]),
+    ("runnable-before-prune", H, """    graph.remove_nodes_from([id_ for id_ in graph if id_ in results])
+""", "", ["C03", "C02"]),
+    ("r-remove-deleted", H, "        runnable_xns_ids.remove(xn.id)\n", "        pass\n", ["C03"]),
+    ("dispatch-twice", H, "            conc_running.add(exec_future_sync)\n", "            conc_running.add(exec_future_sync)\n            conc_running.add(executor.submit(xn.execute, results=results, profiles=profiles))\n", ["C03"]),
+    ("strictdict-no-raise", HP, """        if key in self:
+            raise KeyError(f"key: {key}, is already occupied by {self[key]}")
+        super().__setitem__(key, value)""", "        super().__setitem__(key, value)", ["C03"]),
+    ("force-set-in-execute", N, "                results[self.id] = self.exec_function(*args, **kwargs)", "                results.force_set(self.id, self.exec_function(*args, **kwargs))", ["C03"]),
+    ("check-after-remove", H, """        _ = futures[future_id].result()  # raise exception by calling the future
+        logger.debug("Remove ExecNode {} from the graph", future_id)
+        runnable_xns_ids |= graph.remove_root_node(future_id)
+
+    return done, running, runnable_xns_ids
+
+
+async def""", """        logger.debug("Remove ExecNode {} from the graph", future_id)
+        runnable_xns_ids |= graph.remove_root_node(future_id)
+        _ = futures[future_id].result()  # raise exception by calling the future
+
+    return done, running, runnable_xns_ids
+
+
+async def""", ["C14", "C02"]),
+    # ---- priority (C06 / C07)
+    ("max-to-min", H, "highest_priority_id = max(runnable_xns_ids,", "highest_priority_id = min(runnable_xns_ids,", ["C06"]),
+    ("key-own-priority", H, "key=lambda id_: graph.compound_priority[id_])", "key=lambda id_: exec_nodes[id_].priority)", ["C06"]),
+    ("select-before-guard", H, "        # 4.2 if the current node must be run sequentially", """        async_done, async_running, runnable_xns_ids = await wait_for_finished_nodes_async(
+            FIRST_COMPLETED, graph, async_futures, async_done, async_running, runnable_xns_ids
+        )
+        # 4.2 if the current node must be run sequentially""", ["C06"]),
+    ("drop-table-reattach", G, "        graph.compound_priority = self.compound_priority\n\n        return graph", "        return graph", ["C06", "C07"]),
+    ("gate-drop-priority-table", G, "        new_graph.compound_priority = self.compound_priority\n", "", ["C06", "C07"]),
+    ("formula-child-compound", G, """            self.compound_priority[node_id] = own_priority[node_id] + sum(
+                own_priority[descendant_id] for descendant_id in nx.descendants(self, node_id)
+            )""", """            self.compound_priority[node_id] = own_priority[node_id] + sum(
+                self.compound_priority[child_id] for child_id in self.successors(node_id)
+            )""", ["C07"]),
+    ("reconf-skip-rebuild", D, """        # we might have changed the priority of some nodes we need to recompute the DiGraph
+        self.graph_ids = DiGraphEx.from_exec_nodes(""", """        if "nodes" not in config:
+            return
+        self.graph_ids = DiGraphEx.from_exec_nodes(""", ["C07"]),
+    ("conf-or-default", N, 'values["priority"] = conf.get("priority", self.priority)', 'values["priority"] = conf.get("priority") or self.priority', ["C07"]),
+    # ---- references (C01 / C10 / C19 / C20)
+    ("deref-bare-id", H, "return bool(xn.active.result(results))", "return bool(results[xn.active.id])", ["C10", "C01"]),
+    ("active-is-true", H, "return bool(xn.active.result(results))", "return xn.active.result(results) is True", ["C10"]),
+    ("splice-args-drop-key", D, "UsageExecNode(to_subdag_id(uxn.id), uxn.key) for uxn in exec_node.args", "UsageExecNode(to_subdag_id(uxn.id)) for uxn in exec_node.args", ["C01", "C20"]),
+    ("splice-input-no-prefix", D, "input_uxns = [UsageExecNode(to_subdag_id(uxn.id), uxn.key) for uxn in self.input_uxns]", "input_uxns = [UsageExecNode(uxn.id, uxn.key) for uxn in self.input_uxns]", ["C20"]),
+    ("splice-prefix-twice", D, '                values["id_"] = new_id\n', '                values["id_"] = to_subdag_id(new_id)\n', ["C20"]),
+    ("splice-no-stub-exclusion", D, """                    for id_, res in self.results.items()
+                    if to_subdag_id(id_) not in registered_input_ids
+""", "                    for id_, res in self.results.items()\n", ["C20"]),
+    ("splice-active-only-nonsetup", D, """                if exec_node.active is not None:
+                    values["active"] = UsageExecNode(
+                        to_subdag_id(exec_node.active.id), exec_node.active.key
+                    )
+
+                if not exec_node.setup:
+                    if is_active:""", """                if not exec_node.setup:
+                    if exec_node.active is not None:
+                        values["active"] = UsageExecNode(
+                            to_subdag_id(exec_node.active.id), exec_node.active.key
+                        )
+                    if is_active:""", ["C20", "C01"]),
+    ("splice-tuple-as-list", D, """                    return tuple(
+                        UsageExecNode(to_subdag_id(uxn.id), uxn.key) for uxn in self.return_uxns  # type: ignore[return-value]
+                    )""", """                    return [
+                        UsageExecNode(to_subdag_id(uxn.id), uxn.key) for uxn in self.return_uxns  # type: ignore[return-value]
+                    ]""", ["C20", "C01"]),
+    ("flagpred-value-test", D, "            is_active = ARG_NAME_ACTIVATE in kwargs\n", "            is_active = bool(kwargs.get(ARG_NAME_ACTIVATE, False))\n", ["C10"]),
+    ("conf-drop-active-restore", N, '        values["active"] = self.active\n', "", ["C01"]),
+    ("sub-bound-to-add", X, 'setattr(UsageExecNode, "__sub__", _sub)', 'setattr(UsageExecNode, "__sub__", _add)', ["C01"]),
+    ("rsub-not-reflected", X, 'setattr(UsageExecNode, "__rsub__", reflected(_sub))', 'setattr(UsageExecNode, "__rsub__", _sub)', ["C01"]),
+    ("execute-reads-priority", N, "        args = [uxn.result(results) for uxn in self.args]", "        args = [uxn.result(results) for uxn in self.args] if self.priority >= 0 else []", ["C01"]),
+    ("compose-kwargs-drop-key", D, "xn.kwargs[xn_dep_name] = UsageExecNode(new_id, xn_dep.key)", "xn.kwargs[xn_dep_name] = UsageExecNode(new_id)", ["C19"]),
+    ("compose-no-deepcopy", D, "(in_id, deepcopy(self.exec_nodes[in_id])) for in_id in set_xn_ids", "(in_id, self.exec_nodes[in_id]) for in_id in set_xn_ids", ["C19"]),
+    ("compose-drop-active-rewire", D, """                if xn.active is not None and xn.active.id == old_id:
+                    object.__setattr__(xn, "active", UsageExecNode(new_id, xn.active.key))
+""", "", ["C19"]),
+    ("compose-missing-input-test-removed", D, """                    if pred in dag_inputs_ids:
+                        _raise_missing_input(pred)
+""", "", ["C19"]),
+    # ---- setup / selection / debug (C11 / C12 / C13)
+    ("writeback-drop-setup-guard", D, """            if xn.setup and not xn.executed(self.results):
+                logger.debug("Setting result of setup ExecNode {} to {}", node_id, result)""", """            if not xn.executed(self.results):
+                logger.debug("Setting result of setup ExecNode {} to {}", node_id, result)""", ["C11", "C15"]),
+    ("sched-no-results-copy", H, "    results = copy(results)\n    profiles:", "    profiles:", ["C11", "C15"]),
+    ("presetup-no-filter", D, """        graph.remove_nodes_from(
+            [node_id for node_id in graph if node_id not in self.graph_ids.setup_nodes]
+        )
+        return graph""", "        return graph", ["C11"]),
+    ("setupdep-weakened", N, "accepted_case = exec_nodes[dep.id].setup or isinstance(exec_nodes[dep.id], ArgExecNode)", "accepted_case = exec_nodes[dep.id].setup or isinstance(exec_nodes[dep.id], ExecNode)", ["C11"]),
+    ("select-swap-exclude-target", G, """        # then exclude nodes
+        if exclude_nodes is not None:
+            graph.remove_nodes_from(graph.multiple_nodes_successors(exclude_nodes))
+
+        # lastly select additional nodes
+        if target_nodes is not None:
+            graph = graph.minimal_induced_subgraph(target_nodes).copy()
+""", """        if target_nodes is not None:
+            graph = graph.minimal_induced_subgraph(target_nodes).copy()
+
+        if exclude_nodes is not None:
+            graph.remove_nodes_from(graph.multiple_nodes_successors(exclude_nodes))
+""", ["C12"]),
+    ("select-closure-ancestors-for-roots", G, "return list(nx.dfs_tree(self, node_id).nodes())", "return list(nx.ancestors(self, node_id))", ["C12"]),
+    ("select-drop-targets", G, "nx.induced_subgraph(self, all_ancestors | set(nodes))", "nx.induced_subgraph(self, all_ancestors)", ["C12"]),
+    ("select-issubset-inverted", G, "if not set(root_nodes).issubset(set(graph.root_nodes)):", "if not set(graph.root_nodes).issubset(set(root_nodes)):", ["C12"]),
+    ("alias-id-before-tag", D, """            nodes = [self.exec_nodes[xn_id] for xn_id in self.graph_ids.get_tagged_nodes(alias)]
+            if nodes:
+                return [node.id for node in nodes]
+            #  2. or a node id!
+            if isinstance(alias, Identifier) and alias in self.exec_nodes:
+                node = self.get_node_by_id(alias)
+                return [node.id]""", """            if isinstance(alias, Identifier) and alias in self.exec_nodes:
+                node = self.get_node_by_id(alias)
+                return [node.id]
+            nodes = [self.exec_nodes[xn_id] for xn_id in self.graph_ids.get_tagged_nodes(alias)]
+            if nodes:
+                return [node.id for node in nodes]""", ["C12"]),
+    ("gate-flag-inverted", G, "        if cfg.RUN_DEBUG_NODES:\n            nodes_to_include = original_graph.include_debug_nodes", "        if not cfg.RUN_DEBUG_NODES:\n            nodes_to_include = original_graph.include_debug_nodes", ["C13"]),
+    ("gate-no-subtraction", G, "nodes_to_include = list(set(self.nodes) - set(self.debug_nodes))", "nodes_to_include = list(set(self.nodes))", ["C13"]),
+    ("call-bypasses-gate", D, """        graph = self.graph_ids.extend_graph_with_debug_nodes(self.graph_ids, cfg)
+        _, results, _ = self.run_subgraph(graph, None, *args)""", """        graph = deepcopy(self.graph_ids)
+        _, results, _ = self.run_subgraph(graph, None, *args)""", ["C13"]),
+    ("debugdep-removed", N, """            if not self.debug and exec_nodes[dep.id].debug:
+                raise TawaziBaseException(f"Non debug node {self} depends on debug node {dep}")
+""", "", ["C13"]),
+    # ---- errors (C14)
+    ("wrap-no-cause", N, """                    raise TawaziBaseException(
+                        f"Error occurred while executing ExecNode {self.id} at {self.call_location}"
+                    ) from e""", """                    raise TawaziBaseException(
+                        f"Error occurred while executing ExecNode {self.id} at {self.call_location}"
+                    )""", ["C14"]),
+    ("wrap-no-id", N, 'f"Error occurred while executing ExecNode {self.id} at {self.call_location}"', 'f"Error occurred while executing an ExecNode at {self.call_location}"', ["C14"]),
+    ("helper-no-result-check", H, "        _ = futures[future_id].result()  # raise exception by calling the future\n", "", ["C14"]),
+    ("run-subgraph-swallows", D, """        exec_nodes, results, profiles = sync_execute(
+            exec_nodes=self.exec_nodes,
+            results=results,
+            max_concurrency=self.max_concurrency,
+            graph=subgraph,
+        )
+""", """        try:
+            exec_nodes, results, profiles = sync_execute(
+                exec_nodes=self.exec_nodes,
+                results=results,
+                max_concurrency=self.max_concurrency,
+                graph=subgraph,
+            )
+        except Exception:
+            logger.debug("execution failed")
+            exec_nodes, profiles = self.exec_nodes, StrictDict()
+""", ["C14"]),
+    # ---- state / threads / async (C15 / C16 / C17)
+    ("args-no-copy", H, "    results = copy(results)\n    # 2. parse the input arguments", "    # 2. parse the input arguments", ["C15"]),
+    ("executor-own-graph", D, "            deepcopy(self.graph), results, *args\n        )\n\n        return self._post_call()\n\n\nclass", "            self.graph, results, *args\n        )\n\n        return self._post_call()\n\n\nclass", ["C15"]),
+    ("executed-check-removed", D, """        if self.executed:
+            raise TawaziUsageError("DAGExecution object has already been executed.")
+""", "", ["C15"]),
+    ("locked-as-predicate", N, "    return exec_nodes_lock_owner == get_ident()", "    return exec_nodes_lock.locked()", ["C16"]),
+    ("reset-outside-finally", C, """    finally:
+        # 5. Clean global variable
+        # node.* are global variables, their value is used in the DAG.
+        node.exec_nodes = StrictDict()
+        node.results = StrictDict()
+        node.DAG_PREFIX = []""", """    finally:
+        # 5. Clean global variable
+        # node.* are global variables, their value is used in the DAG.
+        node.exec_nodes = StrictDict()
+        node.results = StrictDict()""", ["C16"]),
+    ("global-in-scheduler", H, [("K = TypeVar(\"K\")", "_PROFILES: \"StrictDict[Identifier, Profile]\" = StrictDict()\nK = TypeVar(\"K\")"),
+                                ("    profiles: StrictDict[Identifier, Profile] = StrictDict()\n\n    # TODO: remove copy",
+                                 "    profiles: StrictDict[Identifier, Profile] = _PROFILES\n\n    # TODO: remove copy")], None, ["C16"]),
+    ("sync-drops-param", H, "exec_nodes=exec_nodes, results=results, max_concurrency=max_concurrency, graph=graph\n        )\n    )", "exec_nodes=exec_nodes, results=results, max_concurrency=1, graph=graph\n        )\n    )", ["C17"]),
+    ("async-call-no-gate", D, """        graph = self.graph_ids.extend_graph_with_debug_nodes(self.graph_ids, cfg)
+        _, results, _ = await self.run_subgraph(graph, None, *args)""", """        graph = deepcopy(self.graph_ids)
+        _, results, _ = await self.run_subgraph(graph, None, *args)""", ["C17", "C13"]),
+    ("sleep-in-coroutine", H, "        # 4.1 choose the most prioritized node to run", "        time.sleep(0)\n        # 4.1 choose the most prioritized node to run", ["C17"]),
+    # ---- cache (C18)
+    ("cache-drop-merge", D, """            for node_id, result in cached_results.items():
+                results.force_set(node_id, result)
+""", "", ["C18"]),
+    ("cache-merge-not-passed", D, "        results = self._pre_call()\n\n        # 2. Execute the scheduler\n        self.xn_dict, self.results, self.profiles = self.dag.run_subgraph(\n            deepcopy(self.graph), results, *args", "        self._pre_call()\n\n        # 2. Execute the scheduler\n        self.xn_dict, self.results, self.profiles = self.dag.run_subgraph(\n            deepcopy(self.graph), self.results, *args", ["C18"]),
+    ("cache-no-exclusion", D, "id_: res for id_, res in results.items() if id_ not in non_cacheable_ids", "id_: res for id_, res in results.items()", ["C18"]),
+]
+
+REPLACE_ALL = {"helper-no-result-check"}
+
+# benign variants: behaviour-preserving edits that must not raise an alarm in any property
+BENIGN: List[Tuple[str, str, List[Tuple[str, str]]]] = [
+    ("not-runnable", H, [("or len(runnable_xns_ids) == 0:", "or not runnable_xns_ids:"), ("        if len(runnable_xns_ids) == 0:", "        if not runnable_xns_ids:")]),
+    ("bound-ge", H, [("if running_threads() == max_concurrency or", "if running_threads() >= max_concurrency or")]),
+    ("post-drain-first-completed", H, [("                ALL_COMPLETED, graph, conc_futures", "                FIRST_COMPLETED, graph, conc_futures"),
+                                       ("                ALL_COMPLETED, graph, async_futures", "                FIRST_COMPLETED, graph, async_futures")]),
+    ("rename-locals", H, [("runnable_xns_ids", "ready_ids"), ("conc_running", "thread_inflight"), ("async_running", "coro_inflight"),
+                          ("highest_priority_id", "best"), ("running_threads", "n_inflight")]),
+    ("swap-main-waits", H, [("""            async_done, async_running, runnable_xns_ids = await wait_for_finished_nodes_async(
+                FIRST_COMPLETED, graph, async_futures, async_done, async_running, runnable_xns_ids
+            )
+            logger.debug(
+                "Waiting for ExecNodes threaded {} to finish. Finished running {}",
+                conc_running,
+                conc_done,
+            )
+            conc_done, conc_running, runnable_xns_ids = wait_for_finished_nodes(
+                FIRST_COMPLETED, graph, conc_futures, conc_done, conc_running, runnable_xns_ids
+            )
+""", """            conc_done, conc_running, runnable_xns_ids = wait_for_finished_nodes(
+                FIRST_COMPLETED, graph, conc_futures, conc_done, conc_running, runnable_xns_ids
+            )
+            async_done, async_running, runnable_xns_ids = await wait_for_finished_nodes_async(
+                FIRST_COMPLETED, graph, async_futures, async_done, async_running, runnable_xns_ids
+            )
+""")]),
+    ("extra-logging", H, [("        xn = exec_nodes[highest_priority_id]\n", "        xn = exec_nodes[highest_priority_id]\n        logger.debug(\"picked {} among {}\", xn.id, len(runnable_xns_ids))\n")]),
+    ("resource-compare-reversed", H, [("if xn.resource == Resource.thread:", "if Resource.thread == xn.resource:"), ("elif xn.resource == Resource.async_thread:", "elif xn.resource is Resource.async_thread:")]),
+    ("active-ifexp", H, [("return bool(xn.active.result(results))", "return True if xn.active.result(results) else False")]),
+    ("select-sorted-last", H, [("highest_priority_id = max(runnable_xns_ids, key=lambda id_: graph.compound_priority[id_])",
+                                "highest_priority_id = sorted(runnable_xns_ids, key=lambda id_: graph.compound_priority[id_])[-1]")]),
+    ("subset-operator", G, [("if not set(root_nodes).issubset(set(graph.root_nodes)):", "if not set(root_nodes) <= set(graph.root_nodes):")]),
+    ("results-copy-ctor", H, [("    results = copy(results)\n    profiles:", "    results = StrictDict(results)\n    profiles:")]),
+    ("deps-list-copy", N, [("        deps = self.args.copy()", "        deps = list(self.args)")]),
+    ("loop-test-truthiness", H, [("    while len(graph):", "    while len(graph) > 0:")]),
+    ("helper-not-running", H, [("    if len(running) == 0:\n        return done, running, runnable_xns_ids\n    done_, running = wait(", "    if not running:\n        return done, running, runnable_xns_ids\n    done_, running = wait(")]),
+    ("pool-positional", H, [("ThreadPoolExecutor(max_workers=max_concurrency)", "ThreadPoolExecutor(max_concurrency)")]),
+    ("remove-selected-by-key", H, [("        runnable_xns_ids.remove(xn.id)\n", "        runnable_xns_ids.discard(highest_priority_id)\n")]),
+    ("prune-list-nodes", H, [("graph.remove_nodes_from([id_ for id_ in graph if id_ in results])", "graph.remove_nodes_from([id_ for id_ in graph.nodes if id_ in results])")]),
+    ("compose-rename-loopvar", D, [("                for i, xn_dep in enumerate(xn.args):", "                for i, dep_ref in enumerate(xn.args):"),
+                                   ("                    if xn_dep.id == old_id:\n                        xn.args[i] = UsageExecNode(new_id, xn_dep.key)", "                    if dep_ref.id == old_id:\n                        xn.args[i] = UsageExecNode(new_id, dep_ref.key)")]),
+    ("key-copy", D, [("UsageExecNode(to_subdag_id(uxn.id), uxn.key) for uxn in exec_node.args", "UsageExecNode(to_subdag_id(uxn.id), list(uxn.key)) for uxn in exec_node.args")]),
+    ("exclude-truthiness", G, [("        if exclude_nodes is not None:\n            graph.remove_nodes_from", "        if exclude_nodes:\n            graph.remove_nodes_from")]),
+    ("maxc-le-0", D, [("if self.max_concurrency < 1:", "if self.max_concurrency <= 0:")]),
+    ("owner-current-thread-ident", N, [("    return exec_nodes_lock_owner == get_ident()", "    return exec_nodes_lock_owner == get_ident() and exec_nodes_lock.locked()")]),
+    ("conf-if-in", N, [('values["priority"] = conf.get("priority", self.priority)', 'values["priority"] = conf["priority"] if "priority" in conf else self.priority')]),
+]
+
+
+def _read(root: str, rel: str) -> str:
+    with open(os.path.join(root, rel), encoding="utf-8") as fh:
+        return fh.read()
+
+
+def _run_variant(args) -> dict:
+    kind, vid, pid, root, overrides = args
+    from . import engine
+
+    if overrides is None:
+        return {"id": vid, "kind": kind, "property": pid, "applies": False}
+    t0 = time.time()
+    try:
+        st, summ = engine.run_property(pid, "quick", root, overrides, quiet=True, write=False)
+    except Exception as e:  # pragma: no cover
+        return {"id": vid, "kind": kind, "property": pid, "applies": True, "exit": 2, "rules": [f"internal:{type(e).__name__}"], "s": 0}
+    rules = sorted({k.split(" @ ")[0] for k in summ.get("new", [])})
+    return {"id": vid, "kind": kind, "property": pid, "applies": True, "exit": st, "rules": rules,
+            "undecided": sorted(summ.get("undecided", {})) if st == 2 else [], "s": round(time.time() - t0, 2)}
+
+
+def _seed_overrides(root: str, patch: str) -> Optional[Dict[str, str]]:
+    """Apply a seeded patch to a scratch copy of the package (outside /repo and /verif) and return the changed files."""
+    tmp = tempfile.mkdtemp(prefix="twzsa_seed_")
+    try:
+        shutil.copytree(os.path.join(root, "tawazi"), os.path.join(tmp, "tawazi"), ignore=shutil.ignore_patterns("__pycache__"))
+        p = subprocess.run(["patch", "-p1", "-s", "-f", "--no-backup-if-mismatch", "-i", patch], cwd=tmp, capture_output=True, text=True)
+        if p.returncode != 0:
+            return None
+        out = {}
+        for dp, dn, fn in os.walk(os.path.join(tmp, "tawazi")):
+            for f in fn:
+                if f.endswith(".py"):
+                    full = os.path.join(dp, f)
+                    rel = os.path.relpath(full, tmp)
+                    with open(full, encoding="utf-8") as fh:
+                        src = fh.read()
+                    if src != _read(root, rel):
+                        out[rel] = src
+        return out or None
+    finally:
+        shutil.rmtree(tmp, ignore_errors=True)
+
+
+def build_jobs(root: str, pids: List[str]) -> List[tuple]:
+    jobs = []
+    src_cache: Dict[str, str] = {}
+
+    def src(rel):
+        if rel not in src_cache:
+            src_cache[rel] = _read(root, rel)
+        return src_cache[rel]
+
+    for vid, rel, old, new, props in MUTANTS:
+        s = src(rel)
+        edits = old if isinstance(old, list) else [(old, new)]
+        if all(o in s for o, _ in edits):
+            for o, n_ in edits:
+                s = s.replace(o, n_) if vid in REPLACE_ALL else s.replace(o, n_, 1)
+            ov = {rel: s}
+        else:
+            ov = None
+        for pid in props:
+            if pid in pids:
+                jobs.append(("mutant", vid, pid, root, ov))
+    for vid, rel, edits in BENIGN:
+        s = src(rel)
+        ok = all(o in s for o, _ in edits)
+        if ok:
+            for o, n in edits:
+                s = s.replace(o, n)
+        for pid in pids:
+            jobs.append(("benign", vid, pid, root, {rel: s} if ok else None))
+    seeded = os.path.join(VERIF_DIR, "seeded")
+    if os.path.isdir(seeded):
+        for sid in sorted(os.listdir(seeded)):
+            pf = os.path.join(seeded, sid, "patch.diff")
+            mf = os.path.join(seeded, sid, "meta.json")
+            if not (os.path.exists(pf) and os.path.exists(mf)):
+                continue
+            meta = json.load(open(mf))
+            expect = meta.get("caught_by") or [meta["property"]]
+            ov = None
+            todo = [p for p in expect if p in pids]
+            if todo:
+                ov = _seed_overrides(root, pf)
+            for pid in todo:
+                jobs.append(("seeded", sid, pid, root, ov))
+    return jobs
+
+
+def thorough_extras(pid: str, root: str) -> dict:
+    jobs = build_jobs(root, [pid])
+    workers = min(16, max(1, len(jobs)))
+    with ProcessPoolExecutor(max_workers=workers) as ex:
+        res = list(ex.map(_run_variant, jobs, chunksize=2))
+    return summarise(res)
+
+
+def summarise(res: List[dict]) -> dict:
+    lines = []
+    mut = [r for r in res if r["kind"] in ("mutant", "seeded")]
+    ben = [r for r in res if r["kind"] == "benign"]
+    flagged = [r for r in mut if r.get("applies") and r["exit"] == 1]
+    gaps = [r for r in mut if r.get("applies") and r["exit"] != 1]
+    na = [r for r in res if not r.get("applies")]
+    silent = [r for r in ben if r.get("applies") and r["exit"] == 0]
+    alarms = [r for r in ben if r.get("applies") and r["exit"] == 1]
+    unmod = [r for r in ben if r.get("applies") and r["exit"] == 2]
+    lines.append(f"  sensitivity: {len(flagged)}/{len([r for r in mut if r.get('applies')])} variants that break the property are flagged; "
+                 f"benign variants silent: {len(silent)}/{len([r for r in ben if r.get('applies')])}"
+                 + (f"; {len(na)} operator(s) no longer apply" if na else ""))
+    for r in gaps:
+        lines.append(f"  SENSITIVITY-GAP: {r['kind']} '{r['id']}' is not flagged by {r['property']} (exit {r['exit']}"
+                     + (f", undecided: {r['undecided']}" if r.get("undecided") else "") + ")")
+    for r in alarms:
+        lines.append(f"  BENIGN-ALARM: benign variant '{r['id']}' raises {r['rules']} in {r['property']} - a false alarm of the checker")
+    for r in unmod:
+        lines.append(f"  (benign variant '{r['id']}' is an idiom {r['property']} does not model: analysis-error, not an alarm: {r.get('undecided')})")
+    return {
+        "lines": lines,
+        "variants_run": len([r for r in res if r.get("applies")]),
+        "mutants_flagged": [{"id": r["id"], "kind": r["kind"], "rules": r["rules"]} for r in flagged],
+        "sensitivity_gaps": [{"id": r["id"], "kind": r["kind"], "exit": r["exit"]} for r in gaps],
+        "benign_silent": [r["id"] for r in silent],
+        "benign_alarms": [{"id": r["id"], "rules": r["rules"]} for r in alarms],
+        "benign_unmodelled": [{"id": r["id"], "undecided": r.get("undecided")} for r in unmod],
+        "operators_not_applicable": sorted({r["id"] for r in na}),
+    }
+
+
+def main(jobs_n: int, only: Optional[str]) -> int:
+    from .ctx import REPO
+
+    pids = [only] if only else ALL
+    jobs = build_jobs(REPO, pids)
+    t0 = time.time()
+    with ProcessPoolExecutor(max_workers=jobs_n) as ex:
+        res = list(ex.map(_run_variant, jobs, chunksize=4))
+    s = summarise(res)
+    for l in s["lines"]:
+        print(l)
+    print(f"selftest: {s['variants_run']} variant analyses in {time.time() - t0:.1f}s")
+    return 0 if not s["sensitivity_gaps"] and not s["benign_alarms"] else 3
